@@ -109,9 +109,8 @@ class RoundTrip(Oracle):
             return None
         nexpl = int(r[4])
         if r[5] != r[6]:
-            if self.strip_meta(r[5]) == self.strip_meta(r[6]) and self.metas(r[5]) == self.metas(r[6]):
-                return ("json-leaflist-meta-order", "JSON metadata of system-ordered leaf-list instances attached by "
-                        "position after sorting")
+            # (the former finding json-leaflist-meta-order - the metadata array of a system-ordered leaf-list coupled with the
+            # instances after sorting - is fixed by 85059b4: any difference is a plain violation)
             return (None, "independently encoded XML and JSON parse to different trees")
         base = r[5]
         base_noflags = r[-2]
